@@ -6,6 +6,7 @@ import (
 	"go/token"
 	"math/rand/v2"
 	"reflect"
+	"slices"
 	"strings"
 
 	"honnef.co/go/tools/pattern"
@@ -53,6 +54,7 @@ type gen struct {
 	depth    int
 	canon    map[string]string // name -> canonical text of the subtree it is bound to
 	nilNames []string          // names bound to an absent (nil) optional child
+	noPool   bool              // fresh() must not reuse decoy names
 	// tuning
 	pAny, pBind, pOr, pNot float64
 	stats                  map[string]int
@@ -67,10 +69,13 @@ func (g *gen) full() bool { return g.nname >= 40 }
 
 func (g *gen) fresh() string {
 	// sometimes re-define a name that a (failed) decoy defined earlier
-	if len(g.pool) > 0 && g.rng.Float64() < 0.6 {
+	if len(g.pool) > 0 && !g.noPool && g.rng.Float64() < 0.6 {
 		n := g.pool[g.rng.IntN(len(g.pool))]
 		if !g.bound[n] {
 			g.stats["reused-decoy-name"]++
+			// what the failed decoy bound it to is gone
+			delete(g.canon, n)
+			g.nilNames = slices.DeleteFunc(g.nilNames, func(x string) bool { return x == n })
 			return n
 		}
 	}
@@ -237,8 +242,10 @@ func (g *gen) decorate(n *pnode, lvl int) *pnode {
 	var out *pnode
 	if r < g.pOr+g.pNot+g.pBind {
 		name := g.fresh()
-		inner := g.descend(n, lvl)
+		// reserved before the sub-pattern is generated: a sub-pattern that defined the
+		// same name again would be a malformed pattern ("binding already created")
 		g.bound[name] = true
+		inner := g.descend(n, lvl)
 		g.note(name, n)
 		g.stats["bind"]++
 		out = &pnode{kind: "bind", name: name, kids: []*pnode{inner}}
@@ -352,7 +359,12 @@ func (g *gen) wrapOr(n *pnode, lvl int) *pnode {
 		for k := range g.bound {
 			saved[k] = true
 		}
+		// (on the node the pattern was made from; on other nodes it may well be tried,
+		// so the names it defines must be used nowhere else in the pattern)
+		prev := g.noPool
+		g.noPool = true
 		or.kids = append(or.kids, g.descend(n, lvl+1))
+		g.noPool = prev
 		g.bound = saved
 	}
 	g.stats["or"]++
@@ -362,8 +374,8 @@ func (g *gen) wrapOr(n *pnode, lvl int) *pnode {
 func (g *gen) decorateNoWrap(n *pnode, lvl int) *pnode {
 	if g.rng.Float64() < 0.4 && !g.full() {
 		name := g.fresh()
+		g.bound[name] = true // reserved, see decorate
 		inner := g.descend(n, lvl)
-		g.bound[name] = true
 		return &pnode{kind: "bind", name: name, kids: []*pnode{inner}}
 	}
 	return g.descend(n, lvl)
